@@ -255,6 +255,34 @@ def check_case(case):
                 raise Violation(f"PSD preprocessing of {c} (response {'none' if resp is None else ('flat' if not resp['poles'] else 'pole-zero')}, differentiate={diff}, "
                                 f"tukey {width:.4g}, N={Np}) differs from the expected series: max error {float(np.max(np.abs(have - y))) / ypk:.3g} of its peak")
         labels.append("response-" + ("none" if resp is None else ("flat" if not resp["poles"] else "polezero")) + ("+diff" if diff else ""))
+        # a list of recordings with different time steps (allowed, with a warning): every recording is treated as if alone
+        if not case.get("big"):
+            dt_b = dt * (0.5 if dt > 0.004 else 2.5)
+            other = arrays[-1]
+
+            def mk(d, arr):
+                return R(TS(arr[0], d), TS(arr[1], d), TS(arr[2], d))
+
+            def pre(records):
+                ps = hv.PsdPreProcessingSettings(orient_to_degrees_from_north=None, filter_corner_frequencies_in_hz=[None, None], window_length_in_seconds=None,
+                                                 detrend=None, window_type_and_width=["tukey", width],
+                                                 fft_settings=None if pre_fft is None else ({"n": None} if pre_fft == "record-length" else {"n": pre_fft}),
+                                                 instrument_transfer_function=itf, differentiate=diff)
+                import warnings
+                with warnings.catch_warnings():
+                    warnings.simplefilter("ignore")
+                    return sut(hv.preprocess, records, ps, what="preprocess[psd]")
+            both = pre([mk(dt, arrays[0]), mk(dt_b, other)])
+            alone = pre([mk(dt_b, other)])
+            require(len(both) == 2 and len(alone) == 1, "PSD preprocessing without splitting must return one record per input record")
+            for cname in comps:
+                a_, b_ = getattr(both[1], cname).amplitude, getattr(alone[0], cname).amplitude
+                pk_ = max(float(np.max(np.abs(b_))), 1e-300)
+                if a_.shape != b_.shape or not close(a_, b_, rtol=1e-9, atol=1e-10 * pk_):
+                    raise Violation(f"PSD preprocessing ({'response ' if resp is not None else ''}{'differentiate' if diff else ''}) of a recording with time step {dt_b:.6g} s "
+                                    f"depends on the recording listed before it (time step {dt:.6g} s): component {cname} differs by "
+                                    f"{float(np.max(np.abs(a_ - b_))) / pk_ if a_.shape == b_.shape else float('inf'):.3g} of its peak from the recording preprocessed alone")
+            labels.append("preprocess-list-mixed-dt")
         # analytic derivative of a Hann-tapered on-bin sinusoid
         if diff and resp is None:
             m = 512
